@@ -62,6 +62,18 @@ Definition is_flag_set (f : bitstring) (i : Z) : res bool :=
 Fixpoint set_flags (f : bitstring) (js : list Z) : res bitstring :=
   match js with [] => Ok f | i :: r => do f' <- set_flag f i; set_flags f' r end.
 
+(* KDCReqBody.Unmarshal (repaired, fix-3) widens kdc-options shorter than 4 bytes the same way: zero bytes
+   AFTER the bytes received, BitLength = 8 * len.  The pinned tree put them in front (pad4_front), which moves
+   every transmitted flag by 8 * (4 - len) positions. *)
+Definition kdc_options_widen (f : bitstring) : bitstring :=
+  if (length (bs_bytes f) <? 4)%nat
+  then let b := bs_bytes f ++ repeatz 0 (4 - length (bs_bytes f)) in mkBits b (zlen b * 8)
+  else f.
+Definition pad4_front (f : bitstring) : bitstring :=
+  if (length (bs_bytes f) <? 4)%nat
+  then let b := repeatz 0 (4 - length (bs_bytes f)) ++ bs_bytes f in mkBits b (zlen b * 8)
+  else f.
+
 (* ---- jv entry points:  ( xbytes ibitlen iflag ) -> ( 0 xbytes ibitlen ) | ( 0 ibool ) | panic ---- *)
 Definition jbits (f : bitstring) : list jv := [JB (bs_bytes f); JI (bs_bitlen f)].
 Definition set_flag_j (j : jv) : jv :=
@@ -70,5 +82,7 @@ Definition unset_flag_j (j : jv) : jv :=
   match j with JL [JB b; JI n; JI i] => jres jbits (unset_flag (mkBits b n) i) | _ => jbad end.
 Definition is_flag_set_j (j : jv) : jv :=
   match j with JL [JB b; JI n; JI i] => jres (fun r => [jbool r]) (is_flag_set (mkBits b n) i) | _ => jbad end.
+Definition kdc_options_widen_j (j : jv) : jv :=
+  match j with JL [JB b; JI n] => jok (jbits (kdc_options_widen (mkBits b n))) | _ => jbad end.
 Definition is_flag_set_orig_j (j : jv) : jv :=
   match j with JL [JB b; JI n; JI i] => jres (fun r => [jbool r]) (is_flag_set_orig (mkBits b n) i) | _ => jbad end.
